@@ -338,3 +338,22 @@ def main_wrapper(fn: Callable[[], int]) -> None:
         print(f'MACHINERY-ERROR: {e}', file=sys.stderr)
         sys.exit(2)
     sys.exit(rc)
+
+
+def repo_test_events(test_paths: Sequence[str]) -> List[Dict[str, Any]]:
+    """Runs the repository's own tests under the recording plugin and returns
+    the trace events of what they did (the tests are not edited)."""
+    import subprocess
+    out = tlc.fresh('rec')
+    env = dict(os.environ)
+    env['VERIF_REC_FILE'] = str(out)
+    env['PYTHONPATH'] = f'{REPO}:{VERIF}:{VERIF / ".pydeps"}'
+    p = subprocess.run([sys.executable, '-m', 'pytest', '-q', '-p', 'no:cacheprovider',
+                        '-p', 'harness.pytest_rec', *test_paths],
+                       cwd=str(REPO), env=env, stdout=subprocess.PIPE, stderr=subprocess.STDOUT,
+                       text=True, timeout=1800)
+    if not out.exists():
+        raise MachineryError(f'recording plugin produced no events:\n{p.stdout[-2000:]}')
+    evs = [json.loads(l) for l in out.read_text().splitlines() if l.strip()]
+    out.unlink()
+    return evs
